@@ -57,29 +57,40 @@ crate::ks_harness! {
 }
 
 // ------------------------------------------------------------------ rotation window
-/// Number of rotations explored.
+/// Largest number of rotations explored.
 const R: usize = 5;
 
-/// `KeySetProvider` with `h` stale keys and an arbitrary id offset; `R` rotations; the key set
+/// `KeySetProvider` with `h` stale keys and an arbitrary id offset; `r <= R` rotations; the key set
 /// published after each rotation is kept (that is what the daemon hands to its tasks:
 /// `Arc<KeySet>` snapshots). A cookie issued under snapshot `i` (symbolic) is decoded under
 /// snapshot `j` (symbolic): it must give back the same contents iff `i <= j <= i + h`.
-fn rotate_body(h: usize) {
+/// `sparse`: keys and session keys have few symbolic bytes (quick tier).
+fn rotate_body(h: usize, r: usize, sparse: bool) {
     symbolic_aead(MODE_EXPECT_OK);
-    let keys = symbolic_keys(R + 1);
+    let keys = if sparse { sparse_keys(r + 1) } else { symbolic_keys(r + 1) };
     let off: u32 = kani::any();
     let i: usize = kani::any();
     let j: usize = kani::any();
-    kani::assume(i <= R && j <= R);
-    let s2c: [u8; 32] = kani::any();
-    let c2s: [u8; 32] = kani::any();
+    kani::assume(i <= r && j <= r);
+    let (s2c, c2s) = if sparse {
+        let a: [u8; 2] = kani::any();
+        let mut x = [3u8; 32];
+        let mut y = [4u8; 32];
+        x[0] = a[0];
+        y[31] = a[1];
+        (x, y)
+    } else {
+        let x: [u8; 32] = kani::any();
+        let y: [u8; 32] = kani::any();
+        (x, y)
+    };
 
     // key 0 comes from the (stubbed) random source like every later key
     let first = AesSivCmac512::new_random();
     let mut provider = kh::provider_from_parts(kh::keyset_from_parts(vec![first], off, 0), h);
     let mut snaps: [Option<Arc<KeySet>>; R + 1] = [None, None, None, None, None, None];
     let mut n = 0;
-    while n <= R {
+    while n <= r {
         if n > 0 {
             provider.rotate();
         }
@@ -124,22 +135,97 @@ fn rotate_body(h: usize) {
     std::mem::forget(provider);
 }
 
-crate::ks_harness_spec! {
-    #[kani::unwind(66)]
-    fn c26_rotate_h0() { rotate_body(0) }
+macro_rules! rotate_harness {
+    ($name:ident, $h:expr, $r:expr, $sparse:expr) => {
+        crate::ks_harness_spec! {
+            #[kani::unwind(66)]
+            fn $name() { rotate_body($h, $r, $sparse) }
+        }
+    };
 }
-crate::ks_harness_spec! {
-    #[kani::unwind(66)]
-    fn c26_rotate_h1() { rotate_body(1) }
+/// Straight-line life of one cookie (quick tier; all pointers concrete): rotate `i` times, issue a
+/// cookie, then present it to the current key set before and after each of `h + 1` further
+/// rotations. It must decode (same contents) while at most `h` rotations have happened since it
+/// was issued and be rejected after rotation `h + 1`; the key set from before it was issued
+/// rejects it as well.
+fn window_body(h: usize, i: usize) {
+    symbolic_aead(MODE_EXPECT_OK);
+    let keys = symbolic_keys(i + h + 2);
+    let off: u32 = kani::any();
+    let s2c: [u8; 32] = kani::any();
+    let c2s: [u8; 32] = kani::any();
+    let first = AesSivCmac512::new_random();
+    let mut provider = kh::provider_from_parts(kh::keyset_from_parts(vec![first], off, 0), h);
+    let mut before: Option<Arc<KeySet>> = None;
+    let mut n = 0;
+    while n < i {
+        before = Some(provider.get());
+        provider.rotate();
+        n += 1;
+    }
+    let c = cookie256(s2c, c2s);
+    let issued_under = provider.get();
+    let enc = kh::keyset_encode_cookie(&issued_under, &c);
+    if model_active() {
+        let used = unsafe { LOG[0].key };
+        assert!(eq_prefix(&used, &keys[i], 64), "cookie issued under the newest key");
+    }
+    let id = u32::from_be_bytes([enc[0], enc[1], enc[2], enc[3]]);
+    assert!(id == off.wrapping_add(i as u32), "key ids advance by one per rotation, wrapping");
+    kani::cover!(i > 0 && id < off, "key id wrapped around u32");
+
+    if let Some(old) = &before {
+        let dec = kh::keyset_decode_cookie(old, &enc);
+        let failed = dec.is_err();
+        std::mem::forget(dec);
+        assert!(failed, "a key set that does not have the issuing key yet rejects the cookie");
+    }
+    let mut d = 0;
+    while d <= h + 1 {
+        if d > 0 {
+            provider.rotate();
+        }
+        let now = provider.get();
+        match kh::keyset_decode_cookie(&now, &enc) {
+            Ok(dc) => {
+                let same = same_cookie(&dc, 15, &s2c, &c2s);
+                std::mem::forget(dc);
+                assert!(d <= h, "the cookie must be rejected once its key was rotated out");
+                assert!(same, "inside the window the cookie decodes to the same algorithm and keys");
+                kani::cover!(d == h, "decoded at the last rotation of its window");
+            }
+            Err(_) => {
+                assert!(d > h, "the cookie must decode while its key is among the newest h + 1");
+                kani::cover!(d == h + 1, "rejected right after its window");
+            }
+        }
+        std::mem::forget(now);
+        d += 1;
+    }
+    std::mem::forget(c);
+    std::mem::forget(before);
+    std::mem::forget(issued_under);
+    std::mem::forget(provider);
 }
-crate::ks_harness_spec! {
-    #[kani::unwind(66)]
-    fn c26_rotate_h2() { rotate_body(2) }
+
+macro_rules! window_harness {
+    ($name:ident, $h:expr, $i:expr) => {
+        crate::ks_harness_spec! {
+            #[kani::unwind(66)]
+            fn $name() { window_body($h, $i) }
+        }
+    };
 }
-crate::ks_harness_spec! {
-    #[kani::unwind(66)]
-    fn c26_rotate_h3() { rotate_body(3) }
-}
+window_harness!(c26_window_h0, 0, 1);
+window_harness!(c26_window_h1, 1, 1);
+window_harness!(c26_window_h2, 2, 1);
+window_harness!(c26_window_h3, 3, 2);
+
+// thorough tier: 5 rotations, fully symbolic key material
+rotate_harness!(c26_rotate_h0, 0, 5, false);
+rotate_harness!(c26_rotate_h1, 1, 5, false);
+rotate_harness!(c26_rotate_h2, 2, 5, false);
+rotate_harness!(c26_rotate_h3, 3, 5, false);
 
 // ------------------------------------------------------------------ tamper evidence
 /// Two valid keys (ids off, off+1), cookie issued under the newer one, one byte inside the
